@@ -13,7 +13,7 @@ TCap == TInst.Cap
 TMaxLive == TInst.MaxLive
 NLines == Len(Rec)
 
-VARIABLES l, allow, bad
+VARIABLES l, allow, bad, prev
 
 NoAllow == [f \in Accts |-> [s \in Accts |-> [amt |-> 0, exp |-> 0]]]
 StateOf(p, al) == [bal |-> p.bal, allow |-> al, minters |-> p.minters, owner |-> p.owner, seq |-> p.seq]
@@ -55,7 +55,7 @@ Report(line, r, v, inv) ==
                              diffs |-> {[field |-> f] : f \in Diffs(r.post, line.post)},
                              inv |-> inv])>>)
 
-Init == l = 2 /\ allow = NoAllow /\ bad = 0
+Init == l = 2 /\ allow = NoAllow /\ bad = 0 /\ prev = [none |-> TRUE]
 
 Consume ==
     /\ l <= NLines
@@ -77,6 +77,10 @@ Consume ==
                            ELSE IF line.obs.ok /\ a.name = "Approve"
                                 THEN [allow EXCEPT ![a.from][a.spender] = [amt |-> a.amt, exp |-> a.exp]]
                                 ELSE allow
+    \* the log must be continuous: each call starts in the state the previous one ended in
+    /\ IF Rec[l].reset \/ "none" \in DOMAIN prev \/ Rec[l].pre = prev THEN TRUE
+       ELSE PrintT(<<"DISCONTINUITY", l>>)
+    /\ prev' = IF Rec[l].reset THEN Rec[l].pre ELSE Rec[l].post
     /\ l' = l + 1
 
 Next == Consume
